@@ -132,7 +132,9 @@ CLAIMED.update({
               "written text and parsed dictionary are compared with the writer and reader models inside Coq.",
               "Coq proof (strong induction over quote runs, list induction) + in-Coq differential correspondence of writer and reader models + round trip on the implementation",
               "5/C01", "partial: the keyword chunking of a file (re.split at the class / item / entry keywords) is a decidable hypothesis evaluated per case, and the number layer (repr/float round trip, isclose 1e-14) is evaluated, not proved; numbers are opaque tokens."),
-    "C02": _c("Proof: Props/C02.v shows that the specification reader decodes the string token written for any name or label to exactly "
+    "C02": _c("Proof: Props/C02.v shows that the specification reader reads EVERY file the short writer or the long writer prints to exactly the "
+              "data (C02_spec_reader_short_file / _long_file: any names and labels incl. the formats' own keywords, any number of tiers and "
+              "entries; declared sizes = items, nothing left over), that it decodes the string token written for any name or label to exactly "
               "that string (format keywords included), that every quote inside a written string is doubled, and that with blank "
               "filling on the written entries of a well-formed interval tier are an ascending gap-free overlap-free partition of "
               "[xmin,xmax] (with and without the threshold).  Every generated textgrid is written in the four formats by the real "
@@ -143,12 +145,14 @@ CLAIMED.update({
               "5/C02", "The reference reader is my reading of Praat's file-format page and defines well-formedness here.  Known finding F19 (all intervals below the threshold) is reported, not suppressed otherwise."),
     "C03": _c("Proof: Props/C03.v shows CRLF invariance of both text readers, that blank removal omits exactly the empty-labelled "
               "entries and nothing else, the duplicate-name policy (unique names, one per tier; untouched when already unique; error "
-              "mode raises iff a name repeats) and that long and short text fields decode every label identically.  Files produced by "
+              "mode raises iff a name repeats), that long and short text fields decode every label identically, and that the long-form reader "
+              "returns the encoded data for whole files in a family of layouts containing Praat's and ELAN's (C03_long_family_file; keyword "
+              "chunking as a decidable side condition evaluated per file).  Files produced by "
               "an independent writer (Praat long, Praat short, ELAN long, both JSON schemas x utf-8, utf-8-sig, utf-16 LE/BE x LF/CRLF, "
               "plain and exponent numbers, -0 starts, empty tiers, duplicates) are opened with the real openTextgrid and compared with "
               "the data they encode; the reader model and the name-policy model are compared with the implementation inside Coq.",
               "Coq proof (list induction) + differential correspondence of the reader models + independent-writer oracle on the implementation",
-              "5/C03", "partial: codecs, BOM handling, universal newlines, json.loads and float() are runtime library behaviour (exercised, not modelled); the whole-file reader composition is evaluated."),
+              "5/C03", "partial: codecs, BOM handling, universal newlines, json.loads and float() are runtime library behaviour (exercised, not modelled); the keyword chunking of a file is a decidable hypothesis evaluated per case; the short layout and the JSON schemas are evaluated."),
 })
 
 CLAIMED.update({
